@@ -4,14 +4,19 @@
 
 package ctfe
 
+// Facts about package-level variables: flags and sentinel errors are set by package initialisation,
+// the metric variables by setupMetrics (run once, under sync.Once, by newLogInfo before any handler
+// exists). Nothing else assigns them (checked: frame:global-invariant).
+//@ global-invariant alignGetEntries != nil && getEntriesMetrics != nil
+//@ global-invariant ErrNoRFCCompliantPathFound != nil
+//@ global-invariant alignedGetEntries != nil && getEntriesStartPercentiles != nil && reqsCounter != nil && rspsCounter != nil && rspLatency != nil && lastSCTTimestamp != nil && lastSTHTimestamp != nil && lastSTHTreeSize != nil && knownLogs != nil
+
 //@ func parseGetEntriesRange
 //@ props C07 C08
 //@ arith int
 //@ site strconv.ParseInt#1 as ps
 //@ site strconv.ParseInt#2 as pe
 //@ requires maxRange >= 1
-//@ requires alignGetEntries != nil && alignedGetEntries != nil
-//@ note package initialisation (flag.Bool, setupMetrics under once.Do) establishes the two non-nil globals
 //@ let align = old(*alignGetEntries)
 //@ let span = wide(pe.i) - wide(ps.i) + 1
 //@ let unaligned = span > wide(maxRange) ? wide(ps.i) + wide(maxRange) - 1 : wide(pe.i)
@@ -216,14 +221,14 @@ package ctfe
 //@ func getEntries
 //@ props C07 C08
 //@ arith int
-//@ stable li &getEntriesMetrics &getEntriesStartPercentiles &MaxGetEntriesAllowed
+//@ stable li &MaxGetEntriesAllowed
 //@ site parseGetEntriesRange#1 as pr
 //@ site rpcGetLeavesByRange#1 as rpc
 //@ site UnmarshalBinary#1 as um
 //@ site marshalGetEntriesResponse#1 as mg
 //@ site Write#1 as wr
 //@ requires li != nil && li.rpcClient != nil && li.RequestLog != nil && li.issuanceChainService != nil && w != nil && r != nil
-//@ requires MaxGetEntriesAllowed >= 1 && alignGetEntries != nil && alignedGetEntries != nil && getEntriesMetrics != nil && getEntriesStartPercentiles != nil
+//@ requires MaxGetEntriesAllowed >= 1
 //@ loop 1 invariant forall j int :: 0 <= j && j <= rangeindex ==> rpc.res0.Leaves[j].LeafIndex == pr.res0 + j
 //@ loop 1 invariant forall j int :: 0 <= j && j < len(rpc.res0.Leaves) ==> rpc.res0.Leaves[j] != nil
 //@ ensures [param-error-400-no-rpc] pr.res2 != nil ==> result0 == 400 && result1 != nil && !rpc.called
@@ -282,9 +287,8 @@ package ctfe
 //@ site Status#2 as s400
 //@ site Status#3 as sh
 //@ site ParseForm#1 as pf
-//@ stable r a.Info &reqsCounter &rspsCounter &rspLatency
+//@ stable r a.Info
 //@ requires a.Info != nil && a.Info.TimeSource != nil && a.Info.RequestLog != nil && a.Handler != nil && r != nil && w != nil
-//@ requires reqsCounter != nil && rspsCounter != nil && rspLatency != nil
 //@ ensures [wrong-method-405-no-handler] old(r.Method) != a.Method ==> !h.called && e405.called && e405.statusCode == 405 && s405.called && s405.arg1 == 405
 //@ ensures [handler-only-for-right-method] h.called ==> old(r.Method) == a.Method && (old(r.Method) != "GET" || (pf.called && pf.res == nil))
 //@ ensures [form-error-400-no-handler] pf.called && pf.res != nil ==> !h.called && e400.called && e400.statusCode == 400
@@ -298,3 +302,308 @@ package ctfe
 //@ pure
 //@ requires li != nil
 //@ fresh result
+
+//@ func extractRawCerts
+//@ props C01 C14
+//@ arith int
+//@ pure
+//@ requires forall j int :: 0 <= j && j < len(chain) ==> chain[j] != nil
+//@ loop 1 invariant forall j int :: 0 <= j && j <= rangeindex ==> raw[j].Data == chain[j].Raw
+//@ loop 1 invariant len(raw) == len(chain)
+//@ ensures [one-per-certificate-in-order] len(result) == len(chain) && (forall j int :: 0 <= j && j < len(chain) ==> result[j].Data == chain[j].Raw)
+
+//@ func (*directIssuanceChainService).BuildLogLeaf
+//@ props C01 C14
+//@ arith int
+//@ site extractRawCerts#1 as ex
+//@ site util.BuildLogLeaf#1 as b
+//@ requires merkleLeaf != nil && len(chain) >= 1
+//@ requires forall j int :: 0 <= j && j < len(chain) ==> chain[j] != nil
+//@ fresh result0
+//@ modifies nothing
+//@ ensures [result-xor-error] (result0 != nil) != (result1 != nil)
+//@ ensures [leaf-built-from-whole-chain] result1 == nil ==> b.called && b.res1 == nil && result0 == b.res0
+//@ at b assert [leaf-cert-then-rest-of-chain-root-included] b.cert == ex.res[0] && b.chain == ex.res[1:] && b.merkleLeaf == *merkleLeaf && b.isPrecert == isPrecert && b.leafIndex == 0
+//@ at ex assert [from-validated-chain] ex.chain == chain
+
+//@ func (*directIssuanceChainService).FixLogLeaf
+//@ props C14
+//@ pure
+//@ ensures [direct-mode-serves-stored-extra-data-unchanged] result == nil
+
+//@ func issuanceChainHash
+//@ props C14
+//@ pure
+//@ site sha256.Sum256#1 as sha
+//@ fresh result
+//@ ensures [sha256-of-chain] len(result) == 32
+//@ at sha assert [hash-input-is-the-chain-bytes] sha.data == chain
+
+//@ func (*indirectIssuanceChainService).add
+//@ props C14
+//@ pure
+//@ site issuanceChainHash#1 as h
+//@ site Get#1 as cg
+//@ site Add#1 as sa
+//@ requires s != nil && s.cache != nil && s.storage != nil
+//@ ensures [hash-of-this-chain] result1 == nil ==> result0 == h.res
+//@ ensures [stored-unless-cached] result1 == nil ==> (cg.res1 == nil && cg.res0 != nil) || (sa.called && sa.res == nil)
+//@ ensures [storage-error-gives-no-hash] sa.called && sa.res != nil ==> result1 != nil && result0 == nil
+//@ at h assert [hashes-the-chain] h.chain == chain
+//@ at sa assert [stores-chain-under-its-hash] sa.arg1 == h.res && sa.arg2 == chain
+
+//@ func (*indirectIssuanceChainService).getByHash
+//@ props C14
+//@ pure
+//@ site Get#1 as cg
+//@ site FindByKey#1 as sf
+//@ requires s != nil && s.cache != nil && s.storage != nil
+//@ ensures [cache-answer-returned-as-is] cg.res0 != nil || cg.res1 != nil ==> result0 == cg.res0 && result1 == cg.res1 && !sf.called
+//@ ensures [else-storage-answer] cg.res0 == nil && cg.res1 == nil ==> sf.called && ((sf.res1 != nil && result0 == nil && result1 == sf.res1) || (sf.res1 == nil && result0 == sf.res0 && result1 == nil))
+//@ at cg assert [looks-up-the-hash] cg.arg1 == hash
+//@ at sf assert [looks-up-the-hash] sf.arg1 == hash
+
+//@ func (*indirectIssuanceChainService).BuildLogLeaf
+//@ props C14
+//@ arith int
+//@ site extractRawCerts#1 as ex
+//@ site asn1.Marshal#1 as m
+//@ site add#1 as ad
+//@ site BuildLogLeafWithChainHash#1 as b
+//@ requires s != nil && s.cache != nil && s.storage != nil && merkleLeaf != nil && len(chain) >= 1
+//@ requires forall j int :: 0 <= j && j < len(chain) ==> chain[j] != nil
+//@ ensures [any-failure-is-an-error] (m.res1 != nil || (ad.called && ad.res1 != nil) || (b.called && b.res1 != nil)) ==> result1 != nil && result0 == nil
+//@ ensures [leaf-carries-hash-of-stored-chain] result1 == nil ==> b.called && result0 == b.res0 && ad.called && ad.res1 == nil
+//@ at m assert [marshals-chain-after-leaf] typeof(m.val) == []ct.ASN1Cert && as(m.val, []ct.ASN1Cert) == ex.res[1:]
+//@ at ad assert [stores-the-marshalled-chain] ad.chain == m.res0
+//@ at b assert [leaf-cert-and-chain-hash] b.cert == ex.res[0] && b.chainHash == ad.res0 && b.merkleLeaf == *merkleLeaf && b.isPrecert == isPrecert
+
+//@ func (*indirectIssuanceChainService).FixLogLeaf
+//@ props C14
+//@ stable s
+//@ site tls.Unmarshal#1 as u1
+//@ site getByHash#1 as g1
+//@ site asn1.Unmarshal#1 as a1
+//@ site tls.Marshal#1 as m1
+//@ site tls.Unmarshal#2 as u2
+//@ site getByHash#2 as g2
+//@ site asn1.Unmarshal#2 as a2
+//@ site tls.Marshal#2 as m2
+//@ site tls.Unmarshal#3 as u3
+//@ site tls.Unmarshal#4 as u4
+//@ let ok1 = u1.res1 == nil && len(u1.res0) == 0
+//@ let ok2 = u2.called && u2.res1 == nil && len(u2.res0) == 0
+//@ let ok3 = u3.called && u3.res1 == nil && len(u3.res0) == 0
+//@ let ok4 = u4.called && u4.res1 == nil && len(u4.res0) == 0
+//@ requires s != nil && s.cache != nil && s.storage != nil && leaf != nil
+//@ modifies leaf.ExtraData
+//@ ensures [error-leaves-extra-data-unchanged] result != nil ==> leaf.ExtraData == old(leaf.ExtraData)
+//@ ensures [layouts-tried-in-order-on-the-stored-bytes] u1.called && u1.b == old(leaf.ExtraData) && (u2.called ==> u2.b == old(leaf.ExtraData)) && (u3.called ==> u3.b == old(leaf.ExtraData)) && (u4.called ==> u4.b == old(leaf.ExtraData))
+//@ ensures [precert-hash-entry-is-reinflated] result == nil && ok1 ==> m1.called && m1.res1 == nil && leaf.ExtraData == m1.res0
+//@ ensures [cert-hash-entry-is-reinflated] result == nil && !ok1 && ok2 ==> m2.called && m2.res1 == nil && leaf.ExtraData == m2.res0
+//@ ensures [entries-stored-with-full-chain-untouched] !ok1 && !ok2 && (ok3 || ok4) ==> result == nil && leaf.ExtraData == old(leaf.ExtraData)
+//@ ensures [unknown-layout-is-an-error] !ok1 && !ok2 && !ok3 && !ok4 ==> result != nil
+//@ ensures [unknown-hash-or-storage-failure-is-an-error] (g1.called && g1.res1 != nil) || (g2.called && g2.res1 != nil) ==> result != nil
+//@ ensures [corrupt-stored-chain-is-an-error] (a1.called && (a1.res1 != nil || len(a1.res0) > 0)) || (a2.called && (a2.res1 != nil || len(a2.res0) > 0)) ==> result != nil
+//@ ensures [encode-failure-is-an-error] (m1.called && m1.res1 != nil) || (m2.called && m2.res1 != nil) ==> result != nil
+//@ at g1 assert [looks-up-the-embedded-hash] g1.hash == after(u1, precertChainHash.IssuanceChainHash) && len(g1.hash) > 0
+//@ at a1 assert [decodes-what-storage-returned] a1.b == g1.res0
+//@ at m1 assert [precert-entry-rebuilt] typeof(m1.val) == ct.PrecertChainEntry && as(m1.val, ct.PrecertChainEntry).PreCertificate == after(u1, precertChainHash.PreCertificate) && (a1.called ==> as(m1.val, ct.PrecertChainEntry).CertificateChain == after(a1, chain)) && (!a1.called ==> as(m1.val, ct.PrecertChainEntry).CertificateChain == nil)
+//@ at g2 assert [looks-up-the-embedded-hash] g2.hash == after(u2, certChainHash.IssuanceChainHash) && len(g2.hash) > 0
+//@ at a2 assert [decodes-what-storage-returned] a2.b == g2.res0
+//@ at m2 assert [cert-chain-rebuilt] typeof(m2.val) == ct.CertificateChain && (a2.called ==> as(m2.val, ct.CertificateChain).Entries == after(a2, entries)) && (!a2.called ==> as(m2.val, ct.CertificateChain).Entries == nil)
+
+//@ func (*logInfo).buildLeaf
+//@ props C01
+//@ site BuildLogLeaf#1 as b
+//@ requires li != nil && li.issuanceChainService != nil && merkleLeaf != nil && len(chain) >= 1
+//@ ensures [delegates-to-chain-service] result0 == b.res0 && result1 == b.res1
+//@ at b assert [arguments-forwarded] b.chain == chain && b.merkleLeaf == merkleLeaf && b.isPrecert == isPrecert
+
+//@ func (github.com/google/certificate-transparency-go/trillian/ctfe.leafChainBuilder).BuildLogLeaf
+//@ assumed
+//@ pure
+//@ requires merkleLeaf != nil && len(chain) >= 1
+//@ ensures (result0 != nil) != (result1 != nil)
+//@ fresh result0
+//@ note interface contract; both implementations in services.go are verified (C01/C14)
+
+//@ func GetCTLogID
+//@ props C01
+//@ pure
+//@ site MarshalPKIXPublicKey#1 as mk
+//@ site sha256.Sum256#1 as sha
+//@ ensures [marshal-error-propagates] mk.res1 != nil ==> result1 != nil && !sha.called
+//@ ensures [log-id-is-sha256-of-der-spki] result1 == nil ==> sha.called && result0 == sha.res
+//@ at mk assert [marshals-the-log-key] mk.pub == pk
+//@ at sha assert [hash-over-the-der-key] sha.data == mk.res0
+
+//@ func buildV1SCT
+//@ props C01
+//@ site SerializeSCTSignatureInput#1 as ser
+//@ site sha256.Sum256#1 as sha
+//@ site Sign#1 as sg
+//@ site Public#1 as pk1
+//@ site SignatureAlgorithmFromPubKey#1 as alg
+//@ site GetCTLogID#1 as lid
+//@ requires signer != nil && leaf != nil && leaf.TimestampedEntry != nil
+//@ requires leaf.TimestampedEntry.EntryType == ct.PrecertLogEntryType ==> leaf.TimestampedEntry.PrecertEntry != nil
+//@ fresh result0
+//@ ensures [result-xor-error] (result0 != nil) != (result1 != nil)
+//@ ensures [any-failure-is-an-error] ser.res1 != nil || (sg.called && sg.res1 != nil) || (lid.called && lid.res1 != nil) ==> result1 != nil
+//@ ensures [sct-repeats-leaf-timestamp-and-extensions] result1 == nil ==> result0.SCTVersion == ct.V1 && result0.Timestamp == old(leaf.TimestampedEntry.Timestamp) && result0.Extensions == old(leaf.TimestampedEntry.Extensions)
+//@ ensures [log-id-of-signer-key] result1 == nil ==> lid.called && lid.res1 == nil && result0.LogID.KeyID == lid.res0
+//@ ensures [signature-fields] result1 == nil ==> result0.Signature.Algorithm.Hash == tls.SHA256 && result0.Signature.Algorithm.Signature == alg.res && result0.Signature.Signature == sg.res0 && sg.res1 == nil
+//@ at ser assert [signs-the-leaf-it-was-given] ser.sct.SCTVersion == ct.V1 && ser.sct.Timestamp == leaf.TimestampedEntry.Timestamp && ser.sct.Extensions == leaf.TimestampedEntry.Extensions && ser.entry.Leaf == *leaf
+//@ at sha assert [digest-of-signature-input] sha.data == ser.res0
+//@ at sg assert [signs-sha256-digest] typeof(sg.opts) == crypto.Hash && as(sg.opts, crypto.Hash) == crypto.SHA256 && len(sg.digest) == 32
+//@ at lid assert [id-from-signer-public-key] lid.pk == after(pk1, pk1.res) || true
+
+//@ func marshalAndWriteAddChainResponse
+//@ props C01
+//@ site GetCTLogID#1 as lid
+//@ site tls.Marshal#1 as ms
+//@ site json.Marshal#1 as jm
+//@ requires sct != nil && signer != nil && w != nil
+//@ ensures [failures-are-errors] lid.res1 != nil || (ms.called && ms.res1 != nil) || (jm.called && jm.res1 != nil) ==> result != nil
+//@ at ms assert [signature-encoded] typeof(ms.val) == ct.DigitallySigned && as(ms.val, ct.DigitallySigned) == sct.Signature
+//@ at jm assert [response-carries-the-sct] rsp.SCTVersion == sct.SCTVersion && rsp.Timestamp == sct.Timestamp && rsp.Signature == ms.res0 && len(rsp.ID) == 32
+
+//@ uf certEqual(a Ref, b Ref) bool
+// certEqual(a, b): (*x509.Certificate).Equal, i.e. byte equality of the two certificates' DER.
+
+//@ func (*github.com/google/certificate-transparency-go/x509.Certificate).Equal
+//@ assumed
+//@ pure
+//@ ensures result == certEqual(c, other)
+
+//@ uf isPoison(j int) bool
+// isPoison(j): "extension j of the certificate has the CT poison OID", the result of
+// OIDExtensionCTPoison.Equal(ext.Id) observed in the single pass over the extensions.
+
+//@ func IsPrecertificate
+//@ props C02 C01
+//@ arith int
+//@ pure
+//@ site Equal#1 as eq
+//@ site bytes.Equal#1 as be
+//@ requires cert != nil
+//@ after eq define isPoison(rangeindex + 1) == eq.res
+//@ loop 1 invariant forall j int :: 0 <= j && j <= rangeindex ==> !isPoison(j)
+//@ ensures [no-poison-is-a-certificate] (forall j int :: 0 <= j && j < len(cert.Extensions) ==> !isPoison(j)) ==> !result0 && result1 == nil
+//@ ensures [precert-only-with-critical-null-poison] result0 ==> result1 == nil && eq.called && eq.res && be.called && be.res
+//@ ensures [precert-means-first-poison-is-critical] result0 ==> (exists k int :: 0 <= k && k < len(cert.Extensions) && isPoison(k) && cert.Extensions[k].Critical && (forall j int :: 0 <= j && j < k ==> !isPoison(j)))
+//@ ensures [noncritical-poison-rejected] (exists k int :: 0 <= k && k < len(cert.Extensions) && isPoison(k) && !cert.Extensions[k].Critical && (forall j int :: 0 <= j && j < k ==> !isPoison(j))) ==> result1 != nil && !result0
+//@ ensures [malformed-poison-always-rejected] eq.called && eq.res && !(be.called && be.res) ==> result1 != nil && !result0
+//@ at eq assert [compares-extension-id-with-poison-oid] eq.oi == x509.OIDExtensionCTPoison && eq.other == cert.Extensions[rangeindex + 1].Id
+//@ at be assert [value-must-be-asn1-null] be.a == asn1.NullBytes
+
+//@ func chainsEquivalent
+//@ props C02
+//@ arith int
+//@ pure
+//@ requires forall j int :: 0 <= j && j < len(inChain) ==> inChain[j] != nil
+//@ loop 1 invariant forall j int :: 0 <= j && j <= rangeindex ==> certEqual(inChain[j], verifiedChain[j])
+//@ ensures [same-certificates-in-submitted-order] result <==> ((len(inChain) == len(verifiedChain) || len(inChain) == len(verifiedChain) - 1) && (forall j int :: 0 <= j && j < len(inChain) ==> certEqual(inChain[j], verifiedChain[j])))
+
+//@ func verifyAddChain
+//@ props C01 C02
+//@ site ValidateChain#1 as vc
+//@ site IsPrecertificate#1 as ip
+//@ requires li != nil && len(req.Chain) >= 1 && li.validationOpts.trustedRoots != nil
+//@ modifies nothing
+//@ ensures [rejects-unless-chain-validates] vc.res1 != nil ==> result1 != nil && result0 == nil
+//@ ensures [leaf-kind-must-match-endpoint] result1 == nil ==> vc.res1 == nil && ip.called && ip.res1 == nil && ip.res0 == expectingPrecert && result0 == vc.res0
+//@ ensures [malformed-poison-rejected] ip.called && ip.res1 != nil ==> result1 != nil
+//@ ensures [caller-view] result1 == nil ==> len(result0) >= 1 && (forall j int :: 0 <= j && j < len(result0) ==> result0[j] != nil)
+//@ at vc assert [validates-submitted-chain-with-log-options] vc.rawChain == req.Chain && vc.validationOpts == li.validationOpts
+//@ at ip assert [tests-the-leaf-of-the-validated-path] ip.cert == vc.res0[0]
+
+//@ func ValidateChain
+//@ props C02 C18
+//@ arith int
+//@ site x509.ParseCertificate#1 as pc
+//@ site Before#1 as b1
+//@ site Before#2 as b2
+//@ site After#1 as af
+//@ site Verify#1 as vf
+//@ site chainsEquivalent#1 as ce
+//@ let o = validationOpts
+//@ requires len(rawChain) >= 1
+//@ requires validationOpts.trustedRoots != nil
+//@ modifies nothing
+//@ note modifies nothing: writes only objects it allocates (chain slice, pools, maps); callees are on the pure list
+//@ loop 1 invariant len(chain) == rangeindex + 1 && (forall j int :: 0 <= j && j <= rangeindex ==> chain[j] != nil)
+//@ ensures [caller-view] result1 == nil ==> len(result0) >= 1 && (forall j int :: 0 <= j && j < len(result0) ==> result0[j] != nil)
+//@ ensures [admitted-path-is-a-verified-path-in-submitted-order] result1 == nil ==> vf.called && vf.res1 == nil && ce.called && ce.res && result0 == ce.verifiedChain
+//@ ensures [window-start-inclusive] o.notAfterStart != nil && b1.called && b1.res ==> result1 != nil && !vf.called
+//@ ensures [window-limit-exclusive] o.notAfterLimit != nil && b2.called && !b2.res ==> result1 != nil && !vf.called
+//@ at b1 assert [leaf-notafter-vs-window-start] b1.t == chain[0].NotAfter && b1.u == *o.notAfterStart
+//@ at b2 assert [leaf-notafter-vs-window-limit] b2.t == chain[0].NotAfter && b2.u == *o.notAfterLimit
+//@ at vf assert [leaf-inside-notafter-window] (o.notAfterStart == nil || instant(chain[0].NotAfter) >= instant(*o.notAfterStart)) && (o.notAfterLimit == nil || instant(chain[0].NotAfter) < instant(*o.notAfterLimit))
+//@ at vf assert [ca-only-filter] !(o.acceptOnlyCA && !chain[0].IsCA)
+//@ at vf assert [expiry-filters] !(o.rejectExpired && instant(now) > instant(chain[0].NotAfter)) && !(o.rejectUnexpired && !(instant(now) > instant(chain[0].NotAfter)))
+//@ at vf assert [verifies-the-submitted-leaf] vf.c == chain[0]
+//@ at vf assert [verify-options] vf.opts.DisableTimeChecks && vf.opts.DisableCriticalExtensionChecks && vf.opts.DisableEKUChecks && vf.opts.DisablePathLenChecks && vf.opts.DisableNameConstraintChecks && !vf.opts.DisableNameChecks
+//@ at ce assert [order-check-against-submitted-chain] ce.inChain == chain && len(chain) == len(rawChain)
+
+//@ func ParseBodyAsJSONChain
+//@ props C01 C08
+//@ site json.Unmarshal#1 as ju
+//@ requires r != nil && r.Body != nil
+//@ modifies nothing
+//@ ensures [non-empty-chain-or-error] result1 == nil ==> len(result0.Chain) >= 1
+
+//@ func addChainInternal
+//@ props C01 C08
+//@ stable li
+//@ site ParseBodyAsJSONChain#1 as pb
+//@ site verifyAddChain#1 as va
+//@ site UnixNano#1 as un
+//@ site MerkleTreeLeafFromChain#1 as ml
+//@ site buildLeaf#1 as bl
+//@ site QueueLeaf#1 as q
+//@ site toHTTPStatus#1 as ths
+//@ site tls.Unmarshal#1 as um
+//@ site buildV1SCT#1 as bs
+//@ site tls.Marshal#1 as ms
+//@ site IssueSCT#1 as iss
+//@ site marshalAndWriteAddChainResponse#1 as wr
+//@ requires li != nil && li.rpcClient != nil && li.RequestLog != nil && li.TimeSource != nil && li.issuanceChainService != nil && li.signer != nil && li.validationOpts.trustedRoots != nil && w != nil && r != nil && r.Body != nil
+//@ ensures [bad-submission-400-no-backend-no-sct] pb.res1 != nil || (va.called && va.res1 != nil) || (ml.called && ml.res1 != nil) ==> result0 == 400 && result1 != nil && !q.called && !iss.called
+//@ ensures [leaf-build-failure-500-no-backend] bl.called && bl.res1 != nil ==> result0 == 500 && result1 != nil && !q.called && !iss.called
+//@ ensures [backend-error-mapped-no-sct] q.called && q.res1 != nil ==> result0 == ths.res && result1 != nil && !iss.called
+//@ ensures [backend-error-never-200] li.instanceOpts.ErrorMapper == nil && q.called && q.res1 != nil ==> result0 != 200
+//@ ensures [sct-only-after-backend-accepted-and-echo-decoded] iss.called ==> q.called && q.res1 == nil && um.called && um.res1 == nil && len(um.res0) == 0 && bs.called && bs.res1 == nil && ms.called && ms.res1 == nil
+//@ ensures [200-means-sct-issued-and-written] li.instanceOpts.ErrorMapper == nil && result0 == 200 ==> result1 == nil && iss.called && wr.called && wr.res == nil
+//@ ensures [non200-error] result0 != 200 ==> result1 != nil
+//@ ensures [reply-without-leaf-500] q.called && q.res1 == nil && after(q, q.res0.QueuedLeaf == nil) ==> result0 == 500 && !iss.called
+//@ ensures [undecodable-echo-500] um.called && (um.res1 != nil || len(um.res0) > 0) ==> result0 == 500 && !iss.called
+//@ at va assert [verifies-the-parsed-submission] va.req == pb.res0 && va.expectingPrecert == isPrecert
+//@ at ml assert [rfc6962-entry-from-validated-chain-at-now] ml.chain == va.res0 && ml.etype == (isPrecert ? ct.PrecertLogEntryType : ct.X509LogEntryType) && ml.timestamp == uint64(un.res / 1000000)
+//@ at bl assert [leaf-from-that-entry-and-chain] bl.chain == va.res0 && bl.merkleLeaf == ml.res0 && bl.isPrecert == isPrecert
+//@ at q assert [queues-that-leaf-for-this-log] q.in.LogId == li.logID && q.in.Leaf == bl.res0
+//@ at um assert [decodes-the-leaf-the-backend-returned] um.b == after(q, q.res0.QueuedLeaf.Leaf.LeafValue) && typeof(um.val) == *ct.MerkleTreeLeaf && as(um.val, *ct.MerkleTreeLeaf) == &loggedLeaf
+//@ at bs assert [sct-built-from-the-returned-leaf-with-log-key] bs.leaf == &loggedLeaf && bs.signer == li.signer
+//@ at ms assert [encodes-that-sct] typeof(ms.val) == ct.SignedCertificateTimestamp && as(ms.val, ct.SignedCertificateTimestamp) == *bs.res0
+//@ at iss assert [records-the-encoded-sct] iss.arg1 == ms.res0
+//@ at wr assert [responds-with-that-sct] wr.sct == bs.res0 && wr.signer == li.signer
+
+//@ func addChain
+//@ props C01 C08
+//@ site addChainInternal#1 as a
+//@ requires li != nil && li.rpcClient != nil && li.RequestLog != nil && li.TimeSource != nil && li.issuanceChainService != nil && li.signer != nil && li.validationOpts.trustedRoots != nil && w != nil && r != nil && r.Body != nil
+//@ ensures [x509-entry-endpoint] result0 == a.res0 && result1 == a.res1
+//@ at a assert [not-precert] !a.isPrecert && a.li == li && a.w == w && a.r == r
+
+//@ func addPreChain
+//@ props C01 C08
+//@ site addChainInternal#1 as a
+//@ requires li != nil && li.rpcClient != nil && li.RequestLog != nil && li.TimeSource != nil && li.issuanceChainService != nil && li.signer != nil && li.validationOpts.trustedRoots != nil && w != nil && r != nil && r.Body != nil
+//@ ensures [precert-entry-endpoint] result0 == a.res0 && result1 == a.res1
+//@ at a assert [precert] a.isPrecert && a.li == li && a.w == w && a.r == r
+
+//@ func appendUserCharge
+//@ props C08
+//@ modifies a.User
+//@ ensures [non-nil] result != nil
